@@ -101,7 +101,7 @@ class StabilizerState:
             self._nr_cols = data._nr_cols
         elif isinstance(data, nx.Graph):
             n = data.number_of_nodes()
-            adj_matrix = nx.adjacency_matrix(data)
+            adj_matrix = nx.adjacency_matrix(data, nodelist=range(n))
             X_part = np.identity(n, dtype=bool)
             Z_part = np.array(adj_matrix.todense(), dtype=bool)
             phases = [[False]] * n
